@@ -19,11 +19,11 @@ ASSUMPTIONS = ['single-site operator matrices of the Site objects are taken as d
 ANCHORS = {'tenpy/networks/mps.py': ['*']}
 REQUIRED_COUNTERS = {'fn.expectation_value': 20, 'fn.correlation_function': 20, 'fn.expectation_value_term': 20,
                      'fn.term_correlation_function': 10, 'fn.expectation_value_terms_sum': 10, 'fn.overlap': 10,
-                     'fn.sample_measurements': 20, 'fn.get_rho_segment': 10, 'fn.charge_statistics': 10, 'fn.env': 10,
+                     'fn.sample_measurements': 20, 'fn.sample_measurements_ops': 10, 'fn.term_list_correlation_function': 10, 'fn.get_rho_segment': 10, 'fn.charge_statistics': 10, 'fn.env': 10,
                      'fermionic.cases': 20}
 FUNCS = ['expectation_value', 'expectation_value_multi', 'correlation_function', 'correlation_function', 'correlation_jw_mixed',
-         'expectation_value_term', 'term_correlation_function', 'expectation_value_terms_sum', 'overlap', 'sample_measurements',
-         'get_rho_segment', 'charge_statistics', 'env', 'mutinf']
+         'expectation_value_term', 'term_correlation_function', 'term_list_correlation_function', 'expectation_value_terms_sum', 'overlap',
+         'sample_measurements', 'sample_measurements_ops', 'get_rho_segment', 'charge_statistics', 'env', 'mutinf']
 
 
 def plan(tier, seed, jobs):
@@ -325,6 +325,112 @@ def do_term_correlation_function(ctx, rng, psi, vec, sites, kind, qt, case):
     if got.shape != (len(exp), ) or any(not close(g, e) for g, e in zip(got, exp)):
         ctx.violation('term_correlation_function_%s:wrong:%s' % ('right' if right else 'left', k),
                       'got %r expected %r' % (got.tolist(), [complex(e) for e in exp]), case)
+
+
+def do_term_list_correlation_function(ctx, rng, psi, vec, sites, kind, qt, case):
+    """<psi| (sum_a cL_a T^L_a shifted by i_L) (sum_b cR_b T^R_b shifted by j) |psi> for all j; the single terms may carry charge
+    (only neutral products contribute) and may be fermionic (both lists odd or both even)."""
+    from tenpy.networks.terms import TermList
+    from vf import dense
+    L = len(sites)
+    s0 = sites[0]
+    if L < 4 or any(s is not s0 for s in sites):
+        raise _Skip()
+    ctx.count('fn.term_list_correlation_function')
+    ferm = dense.is_fermionic(s0) and rng.random() < 0.5
+
+    def rand_list(width):
+        terms, strengths = [], []
+        for _ in range(int(rng.integers(1, 4))):
+            if ferm:
+                t = [(opnames(s0, rng, 'fermionic'), 0)]  # one fermionic operator per term: every term of a list is odd
+                if width > 1 and rng.random() < 0.4:
+                    t.append((opnames(s0, rng, 'bosonic'), 1))
+            else:
+                t = [(opnames(s0, rng, 'bosonic'), 0)]
+                if width > 1 and rng.random() < 0.4:
+                    t.append((opnames(s0, rng, 'bosonic'), 1))
+            terms.append(t)
+            strengths.append(complex(np.round(rng.standard_normal(), 2), np.round(rng.standard_normal(), 2) if rng.random() < 0.3 else 0))
+        return terms, strengths
+
+    tL, cL = rand_list(2)
+    tR, cR = rand_list(2)
+    wL = 1 + max(x for t in tL for _, x in t)
+    wR = 1 + max(x for t in tR for _, x in t)
+    i_L = 0
+    j_R = list(range(wL, L - wR + 1))
+    if not j_R:
+        raise _Skip()
+    case['options'] = {'term_list_L': tL, 'strength_L': [str(c) for c in cL], 'term_list_R': tR, 'strength_R': [str(c) for c in cR], 'j_R': j_R}
+    use_env = bool(rng.random() < 0.3)
+    if use_env:
+        from tenpy.networks.mps import MPSEnvironment
+        got = np.asarray(MPSEnvironment(psi, psi).term_list_correlation_function_right(TermList(tL, cL), TermList(tR, cR), i_L=i_L, j_R=j_R))
+    else:
+        got = np.asarray(psi.term_list_correlation_function_right(TermList(tL, cL), TermList(tR, cR), i_L=i_L, j_R=j_R))
+    exp = []
+    for j in j_R:
+        tot = 0.
+        for ta, ca in zip(tL, cL):
+            for tb, cb in zip(tR, cR):
+                tot += ca * cb * dense.expval(vec, dense.term_matrix(sites, [(n, x + i_L) for n, x in ta] + [(n, x + j) for n, x in tb]))
+        exp.append(tot)
+    if got.shape != (len(exp), ) or any(not close(g, e, 1e-8) for g, e in zip(got, exp)):
+        ctx.violation('term_list_correlation_function_right:wrong:%s' % ('fermionic' if ferm else 'bosonic'),
+                      'got %r expected %r' % (got.tolist(), [complex(e) for e in exp]), case)
+
+
+def do_sample_measurements_ops(ctx, rng, psi, vec, sites, kind, qt, case):
+    """Sampling in the eigenbasis of given operators: the returned weight is the Born probability (amplitude up to a phase) of the
+    projectors on the eigenvectors of the returned eigenvalues."""
+    L = len(sites)
+    ctx.count('fn.sample_measurements_ops')
+    cand = {}
+    for s in set(sites):
+        good = []
+        for n in sorted(s.opnames):
+            op = s.get_op(n)
+            o = op.to_ndarray()
+            if np.any(op.qtotal != 0) or np.linalg.norm(o - o.conj().T) > 1e-13:
+                continue
+            w = np.linalg.eigvalsh(o)
+            if len(w) > 1 and np.min(np.diff(np.sort(w))) < 1e-6:
+                continue  # degenerate: the eigenvalue does not identify the sampled vector
+            good.append(n)
+        cand[id(s)] = good
+    common = sorted(set.intersection(*[set(v) for v in cand.values()]))
+    if not common:
+        raise _Skip()
+    ops = [common[int(rng.integers(len(common)))] for _ in range(int(rng.integers(1, 4)))]
+    first = int(rng.integers(0, L))
+    last = int(rng.integers(first, L))
+    cplx = bool(rng.random() < 0.5)
+    case['options'] = {'first_site': first, 'last_site': last, 'ops': ops, 'complex_amplitude': cplx}
+    gen_ = np.random.default_rng(int(rng.integers(1 << 30)))
+    for rep in range(3):
+        sig, w = psi.sample_measurements(first, last, ops=ops, rng=gen_, complex_amplitude=cplx)
+        # projector on the eigenvectors named by the returned eigenvalues (documented: ops[(i - first_site) % len(ops)] on site i)
+        v = vec
+        for k, lam in zip(range(first, last + 1), sig):
+            o = sites[k].get_op(ops[(k - first) % len(ops)]).to_ndarray()
+            ew, ev = np.linalg.eigh(o)
+            m = int(np.argmin(np.abs(ew - lam)))
+            if abs(ew[m] - lam) > 1e-9:
+                ctx.violation('sample_measurements(ops):outcome-not-an-eigenvalue', 'site %d: %r is no eigenvalue of %r (%r)' %
+                              (k, lam, ops[(k - first) % len(ops)], ew.tolist()), case)
+                return
+            P = np.outer(ev[:, m], ev[:, m].conj())
+            v = np.moveaxis(np.tensordot(P, v, axes=[[1], [k]]), 0, k)
+        p = float(np.sum(np.abs(v)**2))
+        if p < 1e-12:
+            ctx.violation('sample_measurements(ops):impossible-outcome', 'outcome %r has probability %r' % (list(sig), p), case)
+            return
+        got = abs(w)**2 if cplx else w
+        if not close(got, p, 1e-8):
+            ctx.violation('sample_measurements(ops):weight-not-born-%s' % ('amplitude' if cplx else 'probability'),
+                          'outcome %r: weight %r -> probability %r, Born probability %r' % ([float(x) for x in sig], w, got, p), case)
+            return
 
 
 def do_expectation_value_terms_sum(ctx, rng, psi, vec, sites, kind, qt, case):
